@@ -123,9 +123,11 @@ def r08_2(ctx, fx):
 
 def r08_3(ctx, fx):
     n = n5 = 0
-    for key in sorted(fx.find(r"^transport::(tcp|websocket|quic)::connection::\w+::(handle_protocol_command|start|run_event_loop)::\{closure#0\}::\{closure#\d+\}$")):
+    # every coroutine of the transports' connection modules that opens an outbound substream: the `async move { .. }` block pushed to
+    # the pending-substream set, wherever it is written (inside the command handler, or as an `async fn` helper of its own)
+    for key in sorted(fx.find(r"^transport::(tcp|websocket|quic)::connection::\w+::\w+::\{closure#0\}(::\{closure#\d+\})?$")):
         fn = fx.fn(key)
-        if not fn.is_coroutine:
+        if not fn.is_coroutine or re.search(r"::open_substream::\{closure#0\}$", key):
             continue
         # the future that opens an *outbound* substream on behalf of a protocol command
         if not [c for c in fn.calls(r"Connection::open_substream$")]:
